@@ -78,6 +78,7 @@ structure BodySpec where
   recurK : Nat := 0
   isRec  : Bool := false
   failHash : Option (Nat × Nat × String) := none     -- raise cls iff fnv(kwargs) % m == r
+  dfltRaise : Option String := none                  -- `get_default` raises an exception of this class
   deriving Inhabited
 
 def jVal (j : Json) : Val :=
@@ -115,7 +116,13 @@ def parseCfg (j : Json) : NodeCfg × BodySpec :=
        | .ok (.arr #[a, b, c]) => match a.getNat?.toOption, b.getNat?.toOption, c.getStr?.toOption with
          | some m, some r, some cls => some (m, r, cls)
          | _, _, _ => none
-       | _ => none })
+       | _ => none,
+     dfltRaise := (j.getObjValAs? String "dflt_raise").toOption })
+
+/-- the exception a failing `get_default` of node `n` raises: a class of the generated programs carries the node, a
+builtin class (`Other:TypeError`, …) is identified by its class alone -/
+def dfltExc (n : Node) (cls : String) : Exc :=
+  if cls.startsWith "Other:" then ⟨cls, 0, 0, 0⟩ else ⟨cls, n, 0, 0⟩
 
 def bodyOf (cfg : NodeCfg) (b : BodySpec) (n : Node) (kw : Kwargs) (inv att : Nat) : BodyOutcome :=
   match b.fails.find? (fun (i, a, _) => i == inv && a == att) with
@@ -191,7 +198,8 @@ def parseProgram (j : Json) : Except String Program := do
     | .pcomplete => raiseTop "pcomplete"
   return { g := g, cfg := cfgOf, body := fun n kw inv att => bodyOf (cfgOf n) (bsOf n) n kw inv att,
            dflt := fun n kw => .str (prov ((cfgOf n).name ++ ".default") kw), inputKw := ik,
-           poolsOk := !(getBoolD j "pools_missing"), cbYield := cb, cbRaise := cr }
+           poolsOk := !(getBoolD j "pools_missing"), cbYield := cb, cbRaise := cr,
+           dfltRaise := fun n => (bsOf n).dfltRaise.map (dfltExc n) }
 
 /-! ### lock-step -/
 
@@ -305,7 +313,9 @@ def semLine (_ : Unit) (line : String) : Unit × String :=
       | none => none
     -- hypotheses of the plain-fragment theorems, evaluated on this program; and: `Sem` solves the dataflow equations
     let dref := reducedRef P init P.g.input P.g.output false false false
-    let plainHyp : Bool := match dref with
+    -- every `get_default` returns (`dfltOk` of PlainP / OneP): a program with a failing default is outside the fragments
+    let dfltOk : Bool := P.g.nodes.all fun n => (P.dfltRaise n).isNone
+    let plainHyp : Bool := dfltOk && match dref with
       | some d => plainCheck P d && plainAttrsB P && feedsOutputB P d
       | none => false
     let semVal : Node → Option Val := fun n => match st.memo n with
@@ -316,14 +326,14 @@ def semLine (_ : Unit) (line : String) : Unit × String :=
       | none => false
     -- switch-only programs: hypotheses of the safety theorems; `Sem` solves the equations with switches.  The value of a
     -- switch node in `Sem` is the memoised result of the node itself.
-    let swHyp : Bool := swPB P
+    let swHyp : Bool := dfltOk && swPB P
     -- the eager solution (every node evaluated) solves the equations, and `Sem` (demand-driven) agrees with it on every
     -- node it demanded
     let ev := eagerVal P
     let semSolvesSw : Bool := swHyp && solutionSwB P ev &&
       st.demanded.all (fun n => !P.g.nodes.contains n || semVal n == ev n)
     -- switch / one-of programs (no recurrent destination): hypotheses of the safety theorems of Proofs/Safe.lean
-    let oneHyp : Bool := onePB P
+    let oneHyp : Bool := dfltOk && onePB P
     let semSolvesOne : Bool := oneHyp && solutionOneB P ev &&
       st.demanded.all (fun n => !P.g.nodes.contains n || semVal n == ev n)
     -- hypotheses of the stuck-freedom theorem for pipelines with switches (Proofs/Live*.lean): `SwP`, no suspending
@@ -335,7 +345,7 @@ def semLine (_ : Unit) (line : String) : Unit × String :=
                       ("one_hyp", Json.bool oneHyp), ("sem_solves_one", Json.bool semSolvesOne),
                       ("live_hyp", Json.bool liveHyp), ("sw_noyield", Json.bool (swHyp && noYield)),
                       ("demanded", toJson st.demanded), ("values", Json.mkObj vals),
-                      ("plain_hyp", Json.bool plainHyp), ("sem_solves", Json.bool semSolves),
+                      ("dflt_ok", Json.bool dfltOk), ("plain_hyp", Json.bool plainHyp), ("sem_solves", Json.bool semSolves),
                       ("sw_hyp", Json.bool swHyp), ("sem_solves_sw", Json.bool semSolvesSw)]).compress)
 
 end MLPE.Eng
@@ -349,6 +359,7 @@ def retryLine (_ : Unit) (line : String) : Unit × String :=
   | .error e => ((), "{\"error\":\"" ++ e ++ "\"}")
   | .ok j =>
     let cfg := (parseCfg ((j.getObjVal? "cfg").toOption.getD .null)).1
+    let dr : Option Exc := (parseCfg ((j.getObjVal? "cfg").toOption.getD .null)).2.dfltRaise.map (dfltExc 1)
     let outs : List String := (getArr j "outcomes").toList.filterMap fun x => x.getStr?.toOption
     let outcomes : Nat → BodyOutcome := fun k =>
       match outs[k - 1]? with
@@ -362,7 +373,7 @@ def retryLine (_ : Unit) (line : String) : Unit × String :=
       | .dflt => "default"
     let finStr := match fin with
       | some (.value _) => "value"
-      | some .default => "default"
+      | some .default => (match dr with | some e => "failed " ++ excStr e | none => "default")
       | some (.failed e) => "failed " ++ excStr e
       | none => "none"
     ((), (Json.mkObj [("events", jsonStrs (evs.map evStr)), ("final", Json.str finStr)]).compress)
